@@ -285,6 +285,12 @@ def run(pid, tier, seed, do_replay=None):
         if ob.verdict == "proved":
             continue
         if ob.verdict == "undecided":
+            f = finding_for(pid, ob, findings)
+            if f is not None:
+                # the obligation of a recorded open finding: whether the solver exhibits its counter-model again or only
+                # fails to prove it depends on solver luck; the finding is identified by the obligation either way
+                status["known"].append((ob, f))
+                continue
             status["undecided"].append("%s (%s): %s" % (ob.name, ob.where, getattr(ob, "reason", "")))
             continue
         if ob.verdict == "candidate":
